@@ -26,7 +26,7 @@ RULE = (
     ">=1 file or non-empty doc AND the edit changes the id or targets an occupied destination; distinct by case hash."
 )
 CLASSES = [
-    "rekey", "rekey_collision", "rekey_into_empty_dir", "dest_doc_only", "type_only_rekey", "nested_edit", "list_edit",
+    "rekey", "project_named_by_relative_path", "rekey_collision", "rekey_into_empty_dir", "dest_doc_only", "type_only_rekey", "nested_edit", "list_edit",
     "noop_edit", "move", "move_collision", "move_uninitialised", "clone", "clone_collision", "shallow_copy_follows",
     "pickle_independent", "deepcopy_independent", "update_sp_conflict", "prov_id", "prov_cursor", "prov_copy_lazy",
     "prov_copy_materialised",
@@ -193,6 +193,10 @@ def cases(draw):
             ops.append({"op": "doc_set", "h": nh - 1, "k": "y", "v": 2})
     e = dict(edit)
     e["h"] = editor
+    relproj = draw(st.integers(0, 3)) == 0
+    if relproj:
+        # the session named its projects by relative paths and has moved to another working directory since
+        ops.append({"op": "chdir", "p": draw(st.integers(0, 1)), "k": draw(st.integers(0, 3))})
     ops.append(e)
     follow = draw(st.sampled_from([None, None, "back", "copy_after_move"]))
     if follow == "back" and edit["op"] not in ("move", "clone"):
@@ -216,7 +220,7 @@ def cases(draw):
         ops.append({"op": draw(st.sampled_from(["write", "append"])), "h": draw(st.integers(0, nh)), "name": draw(FILES), "data": draw(st.sampled_from(["", "y", "tail\n"]))})
     ops.append({"op": "doc_set", "h": draw(st.integers(0, nh - 1)), "k": "after", "v": 1})
     ops.append({"op": "init", "h": draw(st.integers(0, nh - 1))})
-    return {"two_projects": True, "ops": ops, "meta": {"payload": payload, "prov": prov, "dest": dest, "edit": edit["op"]}}
+    return {"two_projects": True, "relproj": relproj, "ops": ops, "meta": {"payload": payload, "prov": prov, "dest": dest, "edit": edit["op"]}}
 
 
 KF = {
